@@ -56,6 +56,7 @@ import functools
 import icontract
 import icontract as ic
 from icontract import require as req, ensure as ens
+from icontract import require as ñreq
 
 P_LOG = []
 
@@ -220,6 +221,15 @@ def layouts() -> List[Tuple[str, Any]]:
     @add("aliased-name")
     def _(k, lam, e, d, ek, fp):
         return _fn("@req(lambda {}: {}, description={!r}{})".format(lam, e, d, ek), fp, k), "f_" + k
+
+    @add("aliased-name-starting-with-a-non-ascii-letter")
+    def _(k, lam, e, d, ek, fp):
+        return _fn("@ñreq(lambda {}: {}, description={!r}{})".format(lam, e, d, ek), fp, k), "f_" + k
+
+    @add("description-text-with-many-lines-like-decorators-before-the-condition")
+    def _(k, lam, e, d, ek, fp):
+        return _fn('@icontract.require(description="""{}\n@one\n@two\n@three\n@four\n@five\n""".splitlines()[0],\n    condition=lambda {}: {}{})'.format(
+            d, lam, e, ek), fp, k), "f_" + k
 
     @add("ensure")
     def _(k, lam, e, d, ek, fp):
